@@ -129,6 +129,11 @@ def run(ctx, rep):
                   what=f"{k}: added to the {pt} packer only if index.has_{kind.lower()}(same id) is false" if ok else
                        f"{k}: packer type {pt}, lookup has_{kind.lower()} taken {'true' if took_true else 'false'} edge, same id: {bool(common)} - the lookup does not decide this add correctly")
         # ---- C07.c: id = hash(data)
+        # must-derive: EVERY origin of the id is hash(..) / Tree::serialize() (no second, cheaper source on some path)
+        orig = flow.origins(b, op_place(t["args"][2])) if op_place(t["args"][2]) else []
+        okall = bool(orig) and all(o.kind == "call" and re.search(r"crypto::hasher::hash$|blob::tree::Tree::serialize$", o.data[1]) for o in orig)
+        rep.check("C07.c", f"id-only-from-hash/{k}", okall, where=where(b, bb), what=f"{k}: on every path the id handed to the packer is the result of hash() / Tree::serialize()" if okall else
+                  f"{k}: the id handed to the packer has an origin other than hash()/serialize(): {[(o.kind, str(o.data)[:60]) for o in orig][:3]}")
         sl = flow.backward_slice(b, op_place(t["args"][2])) if op_place(t["args"][2]) else {"calls": set(), "call_sites": set()}
         hs = [cb for cb in sl["call_sites"] if b.term(cb)["k"] == "call" and "callee" in b.term(cb) and callee(b.term(cb)).endswith("crypto::hasher::hash")]
         if hs:
